@@ -1,7 +1,7 @@
 """XE - correspondence of the XML extraction model (Model/XmlExtract.v) with the crate's from_node /
 vec_from_document / root_from_document functions as E57Reader::new runs them.  Not a registered property;
-the C04 / C18 / C03 checks import `differential`.  By hand:  NO_MAKE=1 ./tools/check XE   (needs the one-line
-change to tools/check named in the slice report) or  python3 tools/props/xe.py [quick|thorough] [seed]."""
+the C04 / C18 / C03 checks import `differential`, `confirm_refutations`, `witness_trees`.
+By hand:  NO_MAKE=1 ./tools/check XE [--tier thorough]   or   python3 tools/props/xe.py [quick|thorough] [seed]."""
 import os, sys
 if __name__ == "__main__":
     sys.path.insert(0, os.path.dirname(os.path.dirname(os.path.abspath(__file__))))
@@ -41,6 +41,70 @@ def corpus_docs():
             if f.endswith(".xml"):
                 docs.append((open(os.path.join(CORPUS, f), "rb").read(), ["corpus:" + f]))
     return docs
+
+
+def field(res, key, occurrence=0):
+    """value of the `key=` token of a canonical dump (n-th occurrence)"""
+    vals = [t[len(key) + 1:] for t in res.split(" ") if t.startswith(key + "=")]
+    return vals[occurrence] if len(vals) > occurrence else None
+
+
+def hx(s):
+    return "=" + s.encode().hex()
+
+
+# The counterexamples of Props/C18.v (Proofs/XeRefute.v) as XML, with what the REAL reader must show for
+# them to stand: (finding class, base file, variant file, predicate on (base result, variant result)).
+REFUTATIONS = [
+    ("foreign-same-local-name", "w_base", "w_same_name",
+     lambda b, v: field(b, "guid") == hx("real") and field(v, "guid") == hx("fake")),
+    ("foreign-first-child-of-leaf", "w_base", "w_before_text",
+     lambda b, v: field(b, "guid") == hx("real") and field(v, "guid") == "="),
+    ("foreign-first-child-of-leaf", "w_base", "w_comment_before_text",
+     lambda b, v: field(b, "guid") == hx("real") and field(v, "guid") == "="),
+    ("foreign-first-child-of-leaf", "w_bad_number", "w_bad_number_hidden",
+     lambda b, v: b == "E:Invalid" and v.startswith("OK ")),
+    ("foreign-descendant-capture", "w_data3d", "w_data3d_captured",
+     lambda b, v: field(b, "pcs") == "0" and field(v, "pcs") == "1"),
+    ("foreign-descendant-capture", "w_limits", "w_limits_captured",
+     lambda b, v: field(b, "il") == "I:1,I:2" and field(v, "il") == "I:7,I:2"),
+]
+# positive examples of Props/C18.v on the real reader
+POSITIVE = [
+    ("inert-insertion", "w_base_reg", "w_inert", lambda b, v: b == v),
+    ("extension-record", "w_proto_std", "w_proto_ext",
+     lambda b, v: " proto=2 ColorRed/I:0:255 ColorBlue/I:0:255 " in b and
+                  " proto=3 ColorRed/I:0:255 U:%s:%s/I:-5:5 ColorBlue/I:0:255 " % (hx("ext"), hx("quality")) in v),
+    ("extension-record-std-name", "w_proto_std", "w_proto_ext_std_name",
+     lambda b, v: " proto=2 U:%s:%s/I:-5:5 CartesianX/I:0:255 " % (hx("ext"), hx("cartesianX")) in v),
+]
+
+
+WITNESSES = ["w_base", "w_same_name", "w_before_text", "w_comment_before_text", "w_bad_number", "w_bad_number_hidden", "w_data3d",
+             "w_data3d_captured", "w_limits", "w_limits_captured", "w_base_reg", "w_inert", "w_proto_std", "w_proto_ext", "w_proto_ext_std_name"]
+
+
+def witness_trees(profile="debug"):
+    """the Coq terms the C18 theorems are stated about are exactly roxmltree's trees of corpus/XE/<name>.xml.
+    returns the names for which this fails"""
+    impl = core.ensure_harness(profile)
+    xs = [open(os.path.join(CORPUS, w + ".xml"), "rb").read() for w in WITNESSES]
+    a = core.run_cases(impl, ["XMLTREE " + x.hex() for x in xs], shards=1)
+    b = core.run_cases(core.DRIVER, ["XEWIT " + w for w in WITNESSES], shards=1)
+    return [w for w, x, y in zip(WITNESSES, a, b) if x != y]
+
+
+def confirm_refutations(profile="debug"):
+    """runs the witnesses of the C18 theorems on the real reader.
+    returns [(class, base, variant, holds_on_impl, base result, variant result)]"""
+    impl = core.ensure_harness(profile)
+    out = []
+    for cls, b, v, pred in REFUTATIONS + POSITIVE:
+        xb = open(os.path.join(CORPUS, b + ".xml"), "rb").read()
+        xv = open(os.path.join(CORPUS, v + ".xml"), "rb").read()
+        rb, rv = core.run_cases(impl, ["XMETA " + xb.hex(), "XMETA " + xv.hex()], shards=1)
+        out.append((cls, b, v, bool(pred(rb, rv)), rb, rv))
+    return out
 
 
 def differential(rng, n, tier="quick", profile="debug", batch=4000):
@@ -88,7 +152,20 @@ def run(rep, tier, rng, replay=None):
         if r != m:
             rep.violation("correspondence-xe", "impl: %s | model: %s" % (r[:300], m[:300]), dict(kind="xml", xml=xml.hex()), no_input=True)
         return
-    n = 4000 if tier == "quick" else 120000
+    n = 15000 if tier == "quick" else 120000
+    bad = witness_trees()
+    rep.cov["witness_terms_equal_roxmltree_trees"] = len(WITNESSES) - len(bad)
+    if bad:
+        rep.violation("correspondence-xe-witness", "the Coq witness terms %s are not roxmltree's trees of corpus/XE/*.xml" % bad,
+                      dict(kind="witness", names=bad), no_input=True)
+    conf = confirm_refutations()
+    rep.cov["witnesses_on_real_reader"] = [dict(cls=c, base=b, variant=v, as_proved=h) for c, b, v, h, _, _ in conf]
+    for c, b, v, h, rb, rv in conf:
+        rep.count()
+        if not h:
+            # the real reader no longer behaves as the theorem about the model says: the model (or the theorem) is stale
+            rep.violation("correspondence-xe-witness", "witness %s/%s (%s): the real reader gives %s | %s" % (b, v, c, rb[:200], rv[:200]),
+                          dict(kind="xml", xml=open(os.path.join(CORPUS, v + ".xml"), "rb").read().hex()), no_input=True)
     st = differential(rng, n, tier)
     rep.count(st["cases"])
     for k in st["distinct"]:
